@@ -487,7 +487,7 @@ GenCase ==
   /\ \E ft \in (IF Top.lu /\ Has("fallthrough") /\ ~Top.term THEN {FALSE, TRUE} ELSE {FALSE}) :
      \E es \in (IF Top.h.n = 1
                 THEN {<<IntE(n)>> : n \in CaseLits \ UsedCases(Top)}
-                     \cup (IF Has("case2") THEN {<<IntE(n), IntE(n + 10)>> : n \in CaseLits \ UsedCases(Top)} ELSE {})
+                     \cup (IF Has("case2") THEN {<<IntE(n), IntE(n + 20)>> : n \in CaseLits \ UsedCases(Top)} ELSE {})
                 ELSE {<<c>> : c \in CondPool})
                \cup (IF HasDefault(Top) THEN {} ELSE {<<>>}) :
        g' = [g EXCEPT !.left = @ - 1, !.frames[NF] =
